@@ -33,6 +33,8 @@ type Parser struct {
 
 	errors []string
 
+	openRanges []*ast.InfixExpression // `n:` followed by `]` seen and not (yet) found to be the index of a [] expression.
+
 	prefixParseFns  map[token.Type]prefixParseFn
 	infixParseFns   map[token.Type]infixParseFn
 	postfixParseFns map[token.Type]postfixParseFn
@@ -172,6 +174,13 @@ func (p *Parser) ParseProgram() *ast.Statements {
 
 	for p.curToken.Type() != token.EOF && p.curToken.Type() != token.EOL {
 		stmt := p.parseStatement()
+		if len(p.openRanges) > 0 && !p.continuationNeeded {
+			// e.g. x = [1:] : the open ended form is only the index of a[n:], elsewhere its right operand is missing.
+			errLine, lineNum := p.ErrorLine(true)
+			p.addError(fmt.Sprintf("%d: open ended range (n:) outside of an index expression:\n%s", lineNum, errLine))
+			p.openRanges = nil
+			return program
+		}
 		if stmt == nil {
 			return program
 		}
@@ -568,6 +577,7 @@ func (p *Parser) parseInfixExpression(left ast.Node) ast.Node {
 	precedence := p.curPrecedence()
 	// handle [n:] case
 	if (expression.Token.Type() == token.COLON) && (p.peekToken.Type() == token.RBRACKET) {
+		p.openRanges = append(p.openRanges, expression) // checked off by parseIndexExpression.
 		return expression
 	}
 	p.nextToken()
@@ -778,6 +788,9 @@ func (p *Parser) parseIndexExpression(left ast.Node) ast.Node {
 	exp.Index = p.parseExpression(prec)
 	if isDot {
 		return exp
+	}
+	if n := len(p.openRanges); n > 0 && exp.Index == ast.Node(p.openRanges[n-1]) {
+		p.openRanges = p.openRanges[:n-1] // a[n:] is where an open ended range belongs.
 	}
 
 	if !p.expectPeek(token.RBRACKET) {
